@@ -94,7 +94,7 @@ def plant_placements(chk, seed):
 def run(tier, seed):
     chk = CheckRun('C08', tier, seed)
     th = tier == 'thorough'
-    fams = [('placement', fam.fam_placement(thorough=th)), ('take_placement', fam.fam_take_placement()),
+    fams = [('placement', fam.fam_placement(thorough=th)), ('take_placement', fam.fam_take_placement(thorough=th)),
             ('orders', [c for c in fam.fam_orders(thorough=th) if common.cfg_features(c)['order_outside'] or c['id'] % 5 == 0])]
     if th:
         fams.append(('placement_T4', fam.fam_placement(T=4)))
